@@ -12,3 +12,5 @@ open Rpylib.Stats
 #print axioms cv_var_le_raw_one_control
 #print axioms varU_eq
 #print axioms cv_stderr_le_raw_one_control
+#print axioms covB_combo_left
+#print axioms cv_var_le_raw_normal_equations
